@@ -1640,11 +1640,65 @@ def _misc_case(ctx, S, routing, reqs, ctypes, label):
 def search(ctx):
     """the property itself (Python twin of Spec/C04 + the statement) evaluated on the real code's observable behaviour"""
     _search_sync(ctx)
+    _search_notifications(ctx)
     _search_duplicates(ctx)
     _search_sequential(ctx)
     _search_reentrant(ctx)
     _search_retry(ctx)
     search_threads(ctx)
+
+
+def _search_notifications(ctx):
+    """Unsolicited MISC_VALUE_UPDATED notifications interleaved with pending requests, systematically: while a request of every
+    kind (write, read, the four misc kinds) for parameter X is outstanding, notifications for X and for another parameter are
+    delivered BEFORE its reply.  Spec: a notification answers nothing - the next request must not go out before the real reply
+    was delivered, and wire order = issue order."""
+    from harness.sim import crazyflie_device as S
+    rng = ctx.rng
+    routing, _snap = source_variant()
+    kinds = ['set', 'read', 'getdef', 'getstate', 'store', 'clear']
+    for t in range(12 if ctx.tier == 'thorough' else 6):
+        kind = kinds[t % 6]
+        cts = [CTYPES[(t + j) % len(CTYPES)] for j in range(2)]
+        ps = [S.ParamVar('g', 'p%d' % k, ct, value=rand_value(rng, ct), persistent=True, default=rand_value(rng, ct)) for k, ct in enumerate(cts)]
+        dev = S.CrazyflieDevice(protocol_version=5, param_toc=ps)
+        r = Real(dev, {}, routing, needs_resending=bool(t % 2))
+        _pump(r)
+        if not _ready(ctx, r, 'notifications'):
+            return
+        base = len(dev.requests)
+        issued = []
+        if kind == 'set':
+            v = rand_value(rng, cts[0])
+            _call(r, r.param.set_value, 'g.p0', v)
+            issued.append((2, bytes([0, 0]) + struct.pack(FW_FMT[cts[0]], v)))
+        elif kind == 'read':
+            _call(r, r.param.request_param_update, 'g.p0')
+            issued.append((1, bytes([0, 0])))
+        else:
+            fn = {'getdef': r.param.get_default_value, 'getstate': r.param.persistent_get_state, 'store': r.param.persistent_store,
+                  'clear': r.param.persistent_clear}[kind]
+            _call(r, fn, 'g.p0', lambda *a: None)
+            issued.append((3, bytes([{'getdef': 6, 'getstate': 4, 'store': 3, 'clear': 5}[kind], 0, 0])))
+        _call(r, r.param.request_param_update, 'g.p1')           # the next request, queued behind it
+        issued.append((1, bytes([1, 0])))
+        r.upd_step()
+        held = r.hold()                                            # the reply is late
+        for i in (0, 1, 0):
+            pkt = dev.set_param(i, rand_value(rng, cts[i]))
+            r.inject(pkt[1], pkt[2])
+            r.deliver()
+            r.upd_step()                                           # the updater runs whenever it can
+        early = [(c, d) for (p, c, d) in dev.requests[base:] if p == 2]
+        r.unhold(held)
+        _pump(r)
+        wire = [(c, d) for (p, c, d) in dev.requests[base:] if p == 2]
+        ctx.count('search:notification-' + kind)
+        if early != issued[:1] or wire != issued:
+            ctx.witness('one-outstanding', 'a request was transmitted before the previous one was answered (unsolicited value-updated '
+                        'notifications for the same / another parameter delivered while a %s request was outstanding)' % kind,
+                        {'types': cts, 'outstanding': kind, 'issued': [(c, d.hex()) for c, d in issued]},
+                        sent_before_the_reply=[(c, d.hex()) for c, d in early], wire=[(c, d.hex()) for c, d in wire])
 
 
 def _search_sequential(ctx):
